@@ -5,7 +5,7 @@
 use crate::rng::Rng;
 use crate::seams::*;
 
-const CAPS: [u32; 9] = [1, 2, 3, 7, 16, 64, 512, 4096, 8192];
+const CAPS: [u32; 12] = [1, 2, 3, 7, 16, 64, 512, 4096, 8192, 8192, 65536, 1 << 20];
 const CHUNKS: [u16; 12] = [1, 1, 1, 2, 3, 4, 5, 7, 16, 64, 1000, 0];
 const BLOCKS: [u32; 7] = [1, 2, 3, 8, 64, 512, 4096];
 
@@ -50,7 +50,7 @@ fn gen_eintr(rng: &mut Rng, len: usize) -> Vec<u32> {
         let at = if rng.chance(1, 2) { rng.small(12) } else { rng.below(len as u64 + 8) } as u32;
         v.push(at);
         // runs of consecutive interruptions: mostly up to three, now and then up to seven
-        let run = if rng.chance(1, 8) { rng.range(4, 7) } else { rng.below(4) };
+        let run = if rng.chance(1, 40) { rng.range(8, 19) } else if rng.chance(1, 8) { rng.range(4, 7) } else { rng.below(4) };
         for k in 1..run {
             v.push(at + k as u32);
         }
@@ -79,7 +79,7 @@ pub fn gen_reader_benign(rng: &mut Rng, len: usize) -> ReaderCfg {
         eintr_at: gen_eintr(rng, len),
         err: None,
         early_eof: None,
-        eintr_at_eof: if rng.chance(1, 6) { (if rng.chance(1, 5) { rng.range(4, 7) } else { rng.range(1, 3) }) as u8 } else { 0 },
+        eintr_at_eof: if rng.chance(1, 6) { (if rng.chance(1, 20) { rng.range(8, 19) } else if rng.chance(1, 5) { rng.range(4, 7) } else { rng.range(1, 3) }) as u8 } else { 0 },
         err_after_eof: None,
     }
 }
@@ -120,7 +120,7 @@ pub fn gen_writer_benign(rng: &mut Rng, len: usize) -> WriterCfg {
         chunks: gen_chunks(rng),
         eintr_at: gen_eintr(rng, len),
         flush_eintr_at: if rng.chance(1, 4) {
-            let n = (if rng.chance(1, 4) { rng.range(4, 7) } else { rng.range(1, 3) }) as u32;
+            let n = (if rng.chance(1, 12) { rng.range(8, 19) } else if rng.chance(1, 4) { rng.range(4, 7) } else { rng.range(1, 3) }) as u32;
             (0..n).collect()
         } else {
             vec![]
@@ -205,6 +205,7 @@ fn cap_class(cap: u32) -> &'static str {
         2..=7 => "2-7",
         8..=511 => "8-511",
         512..=8191 => "512-8191",
-        _ => "8192",
+        8192 => "8192",
+        _ => ">8192",
     }
 }
